@@ -4,7 +4,9 @@ loader and the same calls on fresh loaders, prints canonical public observables 
 usage: c12_impl.py <jobs.json> <out.json> <workdir>
 jobs.json = [{"log": [msgspec...], "histories": [[call, call, ...], ...]}, ...]
 msgspec   = {"t": type name, "p1": int seconds | null (invalid P1 time), "src": int, "sys": int seconds (events only)}
-call      = {"types": [names]|null, "tr": null|[start|null, end|null, absolute(bool)], "src": null|[ints],
+call      = {"types": [names]|null, "tyf": "list"|"set"|"tuple"|"cls"|"single"|"cls1" (how message_types is passed),
+             "tr": null|[start|null, end|null, absolute(bool)], "trf": "obj"|"str"|"tuple"|"ts" (TimeRange object,
+             "a:b:abs|rel" string, (a, b, "abs"|"rel") tuple, TimeRange(Timestamp(a), Timestamp(b))), "src": null|[ints],
              "max": null|int, "p1": bool, "sys": bool, "num": bool, "keep": bool, "order": bool, "ign": bool,
              "align": 0|1|2, "atypes": null|[names], "idx": bool, "bytes": bool, "nan": bool}
 output    = [{"hist": [[outcome per call] per history], "fresh": {callkey: outcome}, "nomax": {callkey: outcome},
@@ -138,10 +140,30 @@ def canon(res):
 def to_kwargs(c):
     kw = {}
     if c.get('types') is not None:
-        kw['message_types'] = [MessageType[n] for n in c['types']]
+        tys = [MessageType[n] for n in c['types']]
+        form = c.get('tyf', 'list')
+        if form in ('cls', 'cls1'):
+            tys = [message_type_to_class.get(t, t) for t in tys]
+        if form in ('single', 'cls1') and len(tys) == 1:
+            kw['message_types'] = tys[0]
+        elif form == 'set':
+            kw['message_types'] = set(tys)
+        elif form == 'tuple':
+            kw['message_types'] = tuple(tys)
+        else:
+            kw['message_types'] = list(tys)
     tr = c.get('tr')
     if tr is not None:
-        kw['time_range'] = make_tr(tr)
+        form = c.get('trf', 'obj')
+        s_, e_, ab = tr
+        if form == 'str':
+            kw['time_range'] = '%s:%s:%s' % ('' if s_ is None else repr(float(s_)), '' if e_ is None else repr(float(e_)), 'abs' if ab else 'rel')
+        elif form == 'tuple':
+            kw['time_range'] = (None if s_ is None else float(s_), None if e_ is None else float(e_), 'abs' if ab else 'rel')
+        elif form == 'ts' and ab:
+            kw['time_range'] = TimeRange(start=None if s_ is None else Timestamp(float(s_)), end=None if e_ is None else Timestamp(float(e_)))
+        else:
+            kw['time_range'] = make_tr(tr)
     if c.get('src') is not None:
         kw['source_ids'] = list(c['src'])
     if c.get('max') is not None:
